@@ -46,10 +46,15 @@ class LineCoverage:
     correspondence run never reaches can only be caught by a broken proof obligation, never by a disagreement."""
     TOOL = 4
 
-    def __init__(self):
+    def __init__(self, child_dir=None):
         self.hits = set()
         self.on = False
         self.root = os.path.join(os.path.realpath(REPO), 'pedantic') + os.sep
+        self.pid = os.getpid()
+        # processes forked from this one (worker pools of a plugin) and fresh interpreters that call `linecov_child()` append what
+        # they execute to <dir>/<pid>.txt (every location reports once, so these are a few hundred short lines per process)
+        self.dir = child_dir
+        self.child_only = child_dir is not None
 
     def start(self):
         mon = getattr(sys, 'monitoring', None)
@@ -59,12 +64,24 @@ class LineCoverage:
             mon.use_tool_id(self.TOOL, 'pedverif-lines')
         except ValueError:
             return
-        root, hits = self.root, self.hits
+        import tempfile
+        if self.dir is None:
+            self.dir = tempfile.mkdtemp(prefix='pedverif_linecov_')
+            os.environ['VERIF_LINECOV_DIR'] = self.dir
+        root, hits, me, d, child_only = self.root, self.hits, self.pid, self.dir, self.child_only
 
         def on_line(code, line):
             fn = code.co_filename
             if fn.startswith(root):
-                hits.add((fn, line))
+                pid = os.getpid()
+                if pid == me and not child_only:
+                    hits.add((fn, line))
+                else:
+                    try:
+                        with open(os.path.join(d, f'{pid}.txt'), 'a') as f:
+                            f.write(f'{fn}\t{line}\n')
+                    except OSError:
+                        pass
             return mon.DISABLE
         mon.register_callback(self.TOOL, mon.events.LINE, on_line)
         mon.set_events(self.TOOL, mon.events.LINE)
@@ -78,6 +95,18 @@ class LineCoverage:
         mon.register_callback(self.TOOL, mon.events.LINE, None)
         mon.free_tool_id(self.TOOL)
         self.on = False
+        os.environ.pop('VERIF_LINECOV_DIR', None)
+        if self.dir and not self.child_only:
+            import shutil
+            for f in glob.glob(os.path.join(self.dir, '*.txt')):
+                try:
+                    for l in open(f):
+                        fn, _, ln = l.rstrip('\n').rpartition('\t')
+                        if fn and ln.isdigit():
+                            self.hits.add((fn, int(ln)))
+                except OSError:
+                    pass
+            shutil.rmtree(self.dir, ignore_errors=True)
 
     def report(self):
         import types, inspect
@@ -107,6 +136,17 @@ class LineCoverage:
                 out[os.path.relpath(path, os.path.dirname(self.root.rstrip(os.sep)))] = {
                     'function_lines': len(lines), 'executed': len(lines & ran), 'never_executed': missed[:80]}
         return out
+
+
+def linecov_child():
+    """for a fresh interpreter started by a plugin (e.g. the per-scenario processes of C17): report executed library lines to the
+    check that started it, if it asked for that"""
+    d = os.environ.get('VERIF_LINECOV_DIR')
+    if d and os.path.isdir(d):
+        lc = LineCoverage(child_dir=d)
+        lc.start()
+        return lc
+    return None
 
 
 def strip_comments(src: str) -> str:
